@@ -69,6 +69,10 @@ func (handler *InvHandler) Handle(ctx context.Context, m wire.Message) ([]wire.M
 					// request.
 					handler.tracker.Add(item.Hash)
 				}
+			} else {
+				// The trusted node vouches for a tx that is already tracked (it came from another
+				// peer). Record that with the tx so it survives a restart, the mempool doesn't.
+				handler.txs.MarkTrusted(ctx, item.Hash)
 			}
 
 		// The trusted node shouldn't get block inventories because new blocks will be announced
